@@ -24,6 +24,7 @@ CLAIMED = {
  "C15": ("Conic.from_lines(g, h) for all distinct lines: is_degenerate and components == {g, h} as an unordered pair on all 30 paths (csqrt leaf either branch); from_planes is_degenerate; from_planes components and conic x conic only by bounded lattice stand-ins.", "4.15"),
  "C17": ("2D Polygon.area == |shoelace|/2 and centroid == area centroid for n = 3,4 (area n = 5) with arbitrary vertex representatives, invariance under roll/reversal on the real function, Simplex.volume (|det|/2 in the plane, Cayley-Menger branch for a triangle in 3-space), Segment.length, polytope == under roll/flip/rescaling (quadrilateral); RegularPolygon read-backs, 3D polygon / cuboid areas, circumcenter, midpoint by a bounded lattice stand-in.", "4.17"),
  "C18": ("SegmentTensor.intersect(Segment) in 2D: exactly one point iff the lines are not parallel and both parameters lie in [0,1], the point is the crossing, [] otherwise (modular: Segment.contains replaced by its verified contract); intersect(Line): one point iff the line separates the end points; utils.distinct exhaustively over every (also non-transitive) equality relation on <= 5 elements; polygon / polyhedron intersections by a bounded lattice stand-in.", "4.18"),
+ "C04": ("Relational contract f(X)[k] ~ f(X[k]) with fully symbolic coordinates at collection shape (2,) (shapes (1,), (3,), (2,2) thorough) for join / meet in 2D and 3D with every single/collection mix tried, the vectorised coplanar-lines branch (256 arg-max paths each for meet and join), contains, is_parallel, parallel, transformation apply (collection*collection, collection*single, single*collection, lines), quadric contains / tangent; integer indexing, slicing and iteration of Point/Line/Plane/Segment/Quadric/Transformation collections give the element class with attributes (is_dual, _line). Bounded in the collection shape.", "4.4"),
 }
 NA = {}
 def main():
